@@ -103,3 +103,27 @@ Fixpoint path_unescape (s : str) : option str :=
 (* filepath.Join(keysDirPath, url.PathUnescape(filepath.Base(u))) *)
 Definition alpine_key_file (u : str) : option str :=
   option_map (fun n => join [la alpine_key_dir; n]) (path_unescape (base u)).
+
+(* ---- cachePackage and retrieveAndSaveFile, by the derivations goextract reads ------------------ *)
+
+(* [cachepackage_sites]: the four names AdvertiseCachedFile is given as destinations:
+   filepath.Join(cacheDir, hex(ControlHash) + sig), filepath.Join(cacheDir, hex(PackageHash) + dat),
+   strings.TrimSuffix(<the dat name>, trim), filepath.Join(cacheDir, hex(ControlHash) + ctl);
+   the suffix literals are the generated ones, in source order ctl, sig, dat *)
+Definition cp_suffix (i : nat) : str := la (nth i cachepackage_suffixes ""%string).
+Definition cache_package_dsts (cacheDir ctlhex dathex : str) : list str :=
+  [advertised_name cacheDir ctlhex (cp_suffix 1);
+   advertised_name cacheDir dathex (cp_suffix 2);
+   trim_suffix (advertised_name cacheDir dathex (cp_suffix 2)) (la cachepackage_tar_trim);
+   advertised_name cacheDir ctlhex (cp_suffix 0)].
+
+(* [retrieve_sites]: os.MkdirAll(filepath.Dir(cacheFile)), os.CreateTemp(filepath.Dir(cacheFile), "*.tmp"),
+   AdvertiseCachedFile(tmp, cacheFile) — [cacheFile] is what the cachePlacer returned *)
+Definition retrieve_tmp_pattern : str :=
+  match retrieve_sites with
+  | _ :: (_, [_; pat]) :: _ => la (String.substring 1 (String.length pat - 2) pat)   (* the literal without its quotes *)
+  | _ => []
+  end.
+Definition retrieve_creates (cacheFile r : str) : list str :=
+  dir cacheFile ::
+  match temp_path (dir cacheFile) retrieve_tmp_pattern r with Some t => [t] | None => [] end ++ [cacheFile].
